@@ -24,6 +24,8 @@ theorem siLoc_si (b : Blk) (st : Strand) : siLoc (si b st) = .single b st := by
 
 theorem checkEnd_nil (e : Int) : checkEnd e [] = .ok () := rfl
 
+theorem ok_bind' {α β} (a : α) (f : α → R β) : (Except.ok a >>= f) = f a := rfl
+
 theorem mkSingleP_nil (s e : Int) (st : Strand) :
     mkSingleP s e st [] = (Model.mkSingle s e st >>= fun l => pure (l, ([] : PKey))) := by
   unfold mkSingleP
@@ -148,6 +150,162 @@ theorem isectSS_from_kernels (a b : Blk) (ha : a.1 ≤ a.2) (hb : b.1 ≤ b.2) (
       show some (Except.ok (siLoc (si _ sa))) = _
       rw [siLoc_si]; rfl
 
+/-! ### reset_strand / reverse_strand / reverse / reset_parent -/
+
+theorem reset_strand (b : Blk) (st ns : Strand) :
+    Agree siPLoc (Gen.SingleInterval_reset_strand (si b st) ns) (resetStrandP (.single b st, []) ns) := by
+  unfold Gen.SingleInterval_reset_strand resetStrandP Agree
+  simp only [si]
+  rw [← view_mkSI_P]
+  cases mkSI _ _ _ <;> rfl
+
+theorem mkSI_ok (b : Blk) (hb : b.1 ≤ b.2) (st : Strand) :
+    mkSI (b.1 : Int) (b.2 : Int) st = .ok ⟨(b.1 : Int), (b.2 : Int), st⟩ := by
+  unfold mkSI
+  rw [if_pos (by omega)]
+
+/-- on a constructor-valid interval the kernel never raises and is the parent-less `Model.resetStrand` -/
+theorem reset_strand_loc (b : Blk) (hb : b.1 ≤ b.2) (st ns : Strand) :
+    Agree siLoc (Gen.SingleInterval_reset_strand (si b st) ns) (Model.resetStrand (.single b st) ns) := by
+  unfold Gen.SingleInterval_reset_strand
+  show Agree siLoc (match mkSI (b.1 : Int) (b.2 : Int) ns with | .error e => .error e | .ok t1 => .ok t1) _
+  rw [mkSI_ok b hb]
+  show some (Except.ok (siLoc (si b ns))) = _
+  rw [siLoc_si]; rfl
+
+theorem reset_strand_parent_factor (b : Blk) (st ns : Strand) (par : PKey) :
+    resetStrandP (.single b st, par) ns =
+      (resetStrandP (.single b st, []) ns >>= fun r => checkEnd (b.2 : Int) par >>= fun _ => pure (r.1, par)) := by
+  unfold resetStrandP
+  exact mkSingleP_factor _ _ _ _
+
+theorem reverse_strand (b : Blk) (st : Strand) :
+    Agree siPLoc (Gen.SingleInterval_reverse_strand (si b st)) (reverseStrandP (.single b st, [])) := by
+  have hm : reverseStrandP (.single b st, []) = resetStrandP (.single b st, []) (strandReverse st) := rfl
+  have hs : Gen.Strand_reverse (si b st).strand = .ok (strandReverse st) := Ties.strand_reverse st
+  have := reset_strand b st (strandReverse st)
+  rw [hm]
+  unfold Gen.SingleInterval_reverse_strand
+  rw [hs]
+  show Agree siPLoc (match Gen.SingleInterval_reset_strand (si b st) (strandReverse st) with
+    | .error e => .error e | .ok t2 => .ok t2) _
+  unfold Agree at this ⊢
+  cases h : Gen.SingleInterval_reset_strand (si b st) (strandReverse st) <;> rw [h] at this <;> exact this
+
+theorem reverse (b : Blk) (st : Strand) :
+    Agree siPLoc (Gen.SingleInterval_reverse (si b st)) (reverseP (.single b st, [])) := by
+  unfold Gen.SingleInterval_reverse
+  have := reverse_strand b st
+  have he : reverseP (.single b st, []) = reverseStrandP (.single b st, []) := rfl
+  rw [he]
+  unfold Agree at this ⊢
+  cases h : Gen.SingleInterval_reverse_strand (si b st) <;> rw [h] at this <;> exact this
+
+theorem reverse_parent_factor (b : Blk) (st : Strand) (par : PKey) :
+    reverseP (.single b st, par) = reverseStrandP (.single b st, par) ∧
+    reverseStrandP (.single b st, par) =
+      (reverseStrandP (.single b st, []) >>= fun r => checkEnd (b.2 : Int) par >>= fun _ => pure (r.1, par)) := by
+  refine ⟨rfl, ?_⟩
+  unfold reverseStrandP
+  exact mkSingleP_factor _ _ _ _
+
+/-- `reset_parent` re-builds the interval: the constructor on the same coordinates … -/
+theorem reset_parent (b : Blk) (st : Strand) :
+    Agree siPLoc (Gen.SingleInterval_reset_parent (si b st)) (mkSingleP b.1 b.2 st []) := by
+  unfold Gen.SingleInterval_reset_parent Agree
+  simp only [si]
+  rw [← view_mkSI_P]
+  cases mkSI _ _ _ <;> rfl
+
+/-- … hence the identity on a constructor-valid interval (what `Model.containsP` uses for `reset_parent(None)`) -/
+theorem reset_parent_id (b : Blk) (hb : b.1 ≤ b.2) (st : Strand) :
+    Gen.SingleInterval_reset_parent (si b st) = .ok (si b st) := by
+  unfold Gen.SingleInterval_reset_parent
+  show (match mkSI (b.1 : Int) (b.2 : Int) st with | .error e => (Except.error e : PyR SI) | .ok t1 => Except.ok t1) = _
+  rw [mkSI_ok b hb]
+  rfl
+
+/-! ### extend_relative -/
+
+theorem extend_relative (b : Blk) (st : Strand) (up down : Int) :
+    Agree siPLoc (Gen.SingleInterval_extend_relative (si b st) up down)
+      (extendRelativeP (.single b st, []) up down) := by
+  unfold Gen.SingleInterval_extend_relative extendRelativeP
+  have h1 := extend_absolute b st up down
+  have h2 := extend_absolute b st down up
+  cases st with
+  | unstranded => rfl
+  | plus =>
+    simp only [si] at h1 ⊢
+    unfold Agree at h1 ⊢
+    have : Gen.Strand_assert_directional Strand.plus = .ok 0 := rfl
+    simp only [this, assertDirectional, if_true, true_or]
+    cases h : Gen.SingleInterval_extend_absolute ⟨(b.1 : Int), (b.2 : Int), Strand.plus⟩ up down <;>
+      rw [h] at h1 <;> exact h1
+  | minus =>
+    simp only [si] at h2 ⊢
+    unfold Agree at h2 ⊢
+    have : Gen.Strand_assert_directional Strand.minus = .ok 0 := rfl
+    simp only [this, assertDirectional, reduceCtorEq, if_false, or_true, if_true]
+    cases h : Gen.SingleInterval_extend_absolute ⟨(b.1 : Int), (b.2 : Int), Strand.minus⟩ down up <;>
+      rw [h] at h2 <;> exact h2
+
+theorem extend_relative_parent_factor (b : Blk) (st : Strand) (par : PKey) (up down : Int) :
+    extendRelativeP (.single b st, par) up down =
+      (assertDirectional st >>= fun _ =>
+        if st = .plus then extendAbsoluteP (.single b st, par) up down
+        else extendAbsoluteP (.single b st, par) down up) := rfl
+
+/-! ### distance_to -/
+
+/-- the model's `DistType` as the generated `DistanceType` -/
+def genDist : DistType → Gen.DistanceType
+  | .inner => .INNER
+  | .outer => .OUTER
+  | .starts => .STARTS
+  | .ends => .ENDS
+
+theorem pyAbs_sub (x y : Nat) : pyAbs ((x : Int) - (y : Int)) = ((absDiff x y : Nat) : Int) := by
+  unfold pyAbs absDiff
+  split <;> split <;> omega
+
+/-- `_distance_to_single_interval` for the two distance types it implements -/
+theorem distance_to_single_interval (a b : Blk) (ha : a.1 ≤ a.2) (hb : b.1 ≤ b.2) (sa sb : Strand) :
+    Gen.SingleInterval_distance_to_single_interval (si a sa) (si b sb) .INNER = .ok ((innerSS a b : Nat) : Int) ∧
+    Gen.SingleInterval_distance_to_single_interval (si a sa) (si b sb) .OUTER =
+      .ok ((max (absDiff a.1 b.2) (absDiff a.2 b.1) : Nat) : Int) := by
+  have hov := overlap_kernel a b ha hb sa sb
+  unfold Gen.SingleInterval_distance_to_single_interval
+  rw [hov]
+  simp only [si, pyAbs_sub]
+  constructor
+  · simp only [if_true]
+    unfold innerSS
+    cases overlapKernel a b
+    · simp only [Bool.false_eq_true, if_false]
+      congr 1
+      omega
+    · simp
+  · simp only [reduceCtorEq, if_false, if_true]
+    congr 1
+    omega
+
+/-- `distance_to` between two parent-less single intervals: the kernel never raises and returns the model's value -/
+theorem distance_to (a b : Blk) (ha : a.1 ≤ a.2) (hb : b.1 ≤ b.2) (sa sb : Strand) (ty : DistType) :
+    ∃ d : Nat, distanceP (.single a sa, []) (.single b sb, []) ty = .ok d ∧
+      Gen.SingleInterval_distance_to (si a sa) (si b sb) (genDist ty) = .ok (d : Int) := by
+  obtain ⟨hin, hout⟩ := distance_to_single_interval a b ha hb sa sb
+  unfold Gen.SingleInterval_distance_to
+  cases ty with
+  | starts => exact ⟨absDiff a.1 b.1, rfl, by simp [genDist, si, pyAbs_sub]⟩
+  | ends => exact ⟨absDiff a.2 b.2, rfl, by simp [genDist, si, pyAbs_sub]⟩
+  | outer =>
+    refine ⟨max (absDiff a.1 b.2) (absDiff a.2 b.1), rfl, ?_⟩
+    simp only [genDist, reduceCtorEq, if_false, hout]
+  | inner =>
+    refine ⟨innerSS a b, rfl, ?_⟩
+    simp only [genDist, reduceCtorEq, if_false, hin]
+
 /-! ### the statements are not vacuous: concrete evaluations on both sides -/
 
 example : Gen.SingleInterval_extend_absolute (si (3, 10) .minus) 2 5 = .ok ⟨1, 15, .minus⟩ := by rfl
@@ -156,5 +314,10 @@ example : Gen.SingleInterval_extend_absolute (si (3, 10) .minus) (-1) 0 = .error
 example : Gen.SingleInterval_shift_position (si (3, 10) .plus) (-4) = .error .InvalidPositionException := by rfl
 example : Gen.SingleInterval_optimize_blocks (si (4, 4) .plus) = .ok none := by rfl
 example : ((3, 10) : Blk).1 ≤ ((3, 10) : Blk).2 ∧ overlapKernel (3, 10) (5, 12) = true := by decide
+example : Gen.SingleInterval_distance_to (si (3, 10) .plus) (si (14, 20) .minus) .INNER = .ok 4 := by rfl
+example : Gen.SingleInterval_distance_to (si (3, 10) .plus) (si (14, 20) .minus) .OUTER = .ok 17 := by rfl
+example : Gen.SingleInterval_extend_relative (si (3, 10) .minus) 2 1 = .ok ⟨2, 12, .minus⟩ := by rfl
+example : Gen.SingleInterval_extend_relative (si (3, 10) .unstranded) 2 1 = .error .InvalidStrandException := by rfl
+example : Gen.SingleInterval_reverse (si (3, 10) .plus) = .ok ⟨3, 10, .minus⟩ := by rfl
 
 end BioCantor.Proofs.AlgTies
